@@ -35,7 +35,8 @@ struct C22 : drv::Harness
 			else if (w < 55) p.ops.push_back(Op("phb", { 0 }));
 			else if (w < 65) p.ops.push_back(Op("phb", { 1 }));     // heartbeat carrying a TestReqID (answer to a pending test request)
 			else if (w < 75) p.ops.push_back(Op("papp"));
-			else if (w < 88) p.ops.push_back(Op("ptr", { rng.range(1, 999) }));
+			else if (w < 86) p.ops.push_back(Op("ptr", { rng.range(1, 999) }));
+			else if (w < 88) p.ops.push_back(Op("ptr_gap", { rng.range(1, 999) }));   // a TestRequest right after a message of the peer was lost: it arrives one number too high
 			else p.ops.push_back(Op("app"));
 		}
 		p.ops.push_back(Op("wait", { rng.range(1, (T20 + 3) * 2000) }));
@@ -71,6 +72,17 @@ struct C22 : drv::Harness
 			int st_before = (int)w.ses->st();
 			if (op.k == "phb") w.peer.send_msg("0", op.arg(0) ? Flds{ {112, "TEST"} } : Flds{});
 			else if (op.k == "papp") w.peer.send_msg("D", Peer::order_body("P" + std::to_string(w.peer.out_seq)));
+			else if (op.k == "ptr_gap")
+			{
+				// the peer's previous message (say a heartbeat) was lost: the TestRequest carries the expected number + 1; the session asks
+				// for a resend and the peer fills the gap at once, as the protocol prescribes for lost administrative messages
+				std::string id = "REQ" + std::to_string(op.arg(0)) + "-" + std::to_string(i); unsigned missing = w.peer.out_seq++; size_t mark = w.out.size();
+				peer_trs.push_back(PeerTR{id, mark, sim::now_ns()}); w.peer.send_msg("1", { {112, id} });
+				recv_times.push_back(sim::now_ns());
+				w.settle();
+				bool asked = false; for (size_t k = mark; k < w.out.size(); ++k) if (w.out[k].m.type() == "2") asked = true;
+				if (asked) { w.peer.send(w.peer.make("4", missing, { {123, "Y"}, {36, std::to_string(w.peer.out_seq)} }, { {43, "Y"}, {122, utc_ts(sim::now_ns())} })); sim::count("probe_peer_test_request_after_gap"); }
+			}
 			else if (op.k == "ptr") { std::string id = "REQ" + std::to_string(op.arg(0)) + "-" + std::to_string(i); peer_trs.push_back(PeerTR{id, w.out.size(), sim::now_ns()}); w.peer.send_msg("1", { {112, id} }); }
 			recv_times.push_back(sim::now_ns());
 			w.settle();
